@@ -12,11 +12,11 @@ package hashprefix
 //vx:stub crypto/sha256.Sum256 vxC19Sum256
 //vx:stub golang.org/x/net/publicsuffix.PublicSuffix vxC19PublicSuffix
 //vx:stub time.Now vxC19Now
-//vx:note SHA-256 is an uninterpreted function (fresh symbolic 32-byte value per distinct input, so collisions of prefixes and of whole hashes between different names and with database entries are inside); the public-suffix table is a stub returning the last k labels (k symbolic, 1..min(labels,4)) and a symbolic ICANN bit
-//vx:note lookup service = harness fake holding a database D of symbolic full hashes; it answers exactly the members of D whose 2-byte prefix was asked (own hex codec, independent of encoding/hex), as one TXT RR per hash or all in one RR, next to a non-TXT RR and one malformed string (wrong length, or 64 characters with a non-hex one)
-//vx:note Names/Verdict entries: one check against a cache that holds nothing.  Cache entry: cache = harness fake of golibs cache.Cache that never evicts (eviction policy is outside); clock = stub of time.Now, constant within one Check, advancing by a symbolic amount between checks; cache time 10 min (thorough also 0, 1 s, 30 min); seconds and nanoseconds of the clock symbolic
-//vx:note Lookup entry (fresh cache): host of 1..6 (thorough 1..8) labels of 1..2 symbolic ASCII bytes, |D| <= 2 (thorough 3).  Cache entry: 2 (thorough 3) checks sharing one cache; later hosts are the same name, a parent, a child, a sibling or an unrelated name; D is replaced by an arbitrary new database exactly when the clock has passed the previous check's time + cache time (entries of that check must have expired), otherwise it stays
-//vx:note outside: SHA-256 itself, the public-suffix table (ICANN suffixes longer than 4 labels do not exist), cache eviction, upstream errors, a service that answers hashes that were not asked for, concurrent checks
+//vx:note SHA-256 is an uninterpreted function (fresh symbolic 32-byte value per distinct input, so collisions of prefixes and of whole hashes between different names and with database entries are inside); the public-suffix table is a stub returning the last k labels (k in 1..min(labels,4)) and a symbolic ICANN bit; names: labels of 1..2 symbolic ASCII bytes other than '.'
+//vx:note lookup service = harness fake holding a database D of full hashes (bytes 0,1,31 symbolic in quick; 0-3,15,16,30,31 in thorough; the names' own hashes are symbolic in all 32 bytes); it answers exactly the members of D whose 2-byte prefix was asked, in lower-case hex, as one TXT RR per hash or all in one RR, next to a non-TXT RR and possibly one malformed string (64 characters with one non-hex character, 62 characters, 128 characters)
+//vx:note Names entry: every shape of name of 1..6 (thorough 1..8) labels, |D| = 1.  Verdict entry: name with 3 (thorough 4) hashed names, |D| = 2 (thorough 3), every kind of malformed string.  Both: one check against a cache that holds nothing
+//vx:note Cache entry: 2 checks (one thorough scenario: 3) sharing a cache fake that never evicts; clock = stub of time.Now, constant within one Check, seconds and nanoseconds symbolic, advancing by a symbolic amount (<= 4 days) between checks; cache time 10 min (thorough scenarios also 0, 1 s, 30 min); the database is replaced by an arbitrary new one exactly when the clock has passed the previous check's time + cache time (every entry that check wrote or used has expired by then), otherwise it stays.  quick: one-label name then the same name or a child, two database hashes sharing their prefix; thorough: six scenarios adding parent / sibling / unrelated names, unrelated database prefixes, a third check
+//vx:note outside: SHA-256 itself, the public-suffix table (ICANN suffixes longer than 4 labels do not exist), cache eviction, upstream errors, upper-case hex in answers, a service that answers hashes that were not asked for, fractional cache times, concurrent checks
 
 import (
 	"strings"
@@ -455,21 +455,23 @@ func vxC19Verdict() {
 	// a database of two hashes neither of which is asked for behaves like a
 	// smaller one: quick uses two only
 	dbsize := maxDB
-	if vx.Thorough() {
-		dbsize = vx.Choice("dbsize", maxDB+1)
-	}
 	svc.setDB("db", dbsize)
 	if vx.Thorough() {
-		svc.layout = vx.Choice("layout", 2)
-		if kind := vx.Choice("bad", 4); kind > 0 {
-			svc.hasBad, svc.bad = true, vxC19Bad(kind, []int{0, 1, 62, 63}[vx.Choice("badpos", 4)])
+		kind := vx.Choice("bad", 4)
+		svc.layout = kind % 2
+		if kind > 0 {
+			pos := 0
+			if kind == 1 {
+				pos = []int{0, 1, 62, 63}[vx.Choice("badpos", 4)]
+			}
+			svc.hasBad, svc.bad = true, vxC19Bad(kind, pos)
 		}
 	} else {
 		// none / non-hex character / too short / too long
 		kind := vx.Choice("bad", 4)
 		svc.layout = kind % 2
 		if kind > 0 {
-			svc.hasBad, svc.bad = true, vxC19Bad(kind, []int{1, 62}[dbsize%2])
+			svc.hasBad, svc.bad = true, vxC19Bad(kind, 62)
 		}
 	}
 	vxC19One(labels, svc)
@@ -478,35 +480,40 @@ func vxC19Verdict() {
 // vxC19Cache: a sequence of checks sharing one cache.
 func vxC19Cache() {
 	vxC19Reset()
-	// quick: one-label name, database of two hashes (one hash after an
-	// expiry), then the same name or a child of it
-	checks, maxLabels := 2, 1
-	relations := []int{0, 2}
-	if vx.Thorough() {
-		maxLabels = 2
-		relations = []int{0, 1, 2, 3, 4}
+	// A scenario: labels of the first name; how each later name relates to
+	// the one before (0 same, 1 parent, 2 child, 3 sibling, 4 any name with as
+	// many labels); whether the two database hashes share their prefix
+	// (several hashes behind one cache key); cache time in whole seconds
+	// (concrete: the time package multiplies and divides by 1e9, which is
+	// expensive on symbolic 64-bit values); size of the database that replaces
+	// the first one after an expiry; number of checks.
+	type scenario struct {
+		labels    int
+		relations []int
+		shared    bool
+		cacheSec  int64
+		dbsize2   int
+		checks    int
 	}
+	sc := scenario{labels: 1, relations: []int{0, 2}, shared: true, cacheSec: 600, dbsize2: 1, checks: 2}
+	if vx.Thorough() {
+		sc = []scenario{
+			{labels: 1, relations: []int{0, 2}, shared: false, cacheSec: 600, dbsize2: 1, checks: 2},
+			{labels: 1, relations: []int{4}, shared: true, cacheSec: 600, dbsize2: 1, checks: 2},
+			{labels: 2, relations: []int{1, 3}, shared: true, cacheSec: 1800, dbsize2: 1, checks: 2},
+			{labels: 1, relations: []int{0}, shared: true, cacheSec: 0, dbsize2: 2, checks: 2},
+			{labels: 1, relations: []int{2}, shared: true, cacheSec: 1, dbsize2: 1, checks: 2},
+			{labels: 1, relations: []int{0}, shared: true, cacheSec: 600, dbsize2: 1, checks: 3},
+		}[vx.Choice("scenario", 6)]
+	}
+	checks, relations, cacheSec, dbsize2 := sc.checks, sc.relations, sc.cacheSec, sc.dbsize2
 	svc := &vxC19Service{suffix: "pc.dns.adguard.com.", layout: 1}
 	ca := &vxC19CacheT{}
-	// cache time: whole seconds, concrete (the time package multiplies and
-	// divides by 1e9, which is expensive on symbolic 64-bit values)
-	cacheSec := int64(600)
-	if vx.Thorough() {
-		cacheSec = []int64{600, 0, 1, 1800}[vx.Choice("cachetime", 4)]
-	}
 	cacheTime := cacheSec * 1_000_000_000
 	c := &Checker{upstream: svc, cache: ca, svc: "vx", txtSuffix: svc.suffix, cacheTime: time.Duration(cacheTime)}
 
-
-	dbsize, dbsize2 := 2, 1
-	if vx.Thorough() {
-		dbsize = 1 + vx.Choice("dbsize", 2)
-		dbsize2 = dbsize
-	}
-	svc.setDB("db", dbsize)
-	if !vx.Thorough() {
-		// the two hashes share their prefix (several hashes behind one cache
-		// key); thorough: unrelated
+	svc.setDB("db", 2)
+	if sc.shared {
 		vx.Assume(svc.dbhex[0][:4] == svc.dbhex[1][:4])
 	}
 
@@ -518,8 +525,7 @@ func vxC19Cache() {
 	for k := 0; k < checks; k++ {
 		expired := false
 		if k == 0 {
-			n := 1 + vx.Choice("labels", maxLabels)
-			for i := 0; i < n; i++ {
+			for i := 0; i < sc.labels; i++ {
 				labels = append(labels, vxC19Label("host", 1))
 			}
 		} else {
@@ -552,6 +558,9 @@ func vxC19Cache() {
 				vx.Reach("expired")
 				expired = true
 				svc.setDB("db", dbsize2)
+				if dbsize2 == 2 {
+					vx.Assume(svc.dbhex[0][:4] == svc.dbhex[1][:4])
+				}
 			} else {
 				vx.Reach("fresh")
 			}
